@@ -642,3 +642,6 @@ func (p *Prog) ConstInt(name string) (int64, bool) {
 	v, ok := constant.Int64Val(constant.ToInt(c.Val()))
 	return v, ok
 }
+
+// FieldAddrNameOfField names the field an ssa.Field selects: "(pkg.T).f".
+func FieldAddrNameOfField(f *ssa.Field) string { return fieldName(f.X.Type(), f.Field) }
